@@ -15,7 +15,7 @@
 From Coq Require Import ZArith Bool List.
 From TV Require Import Num.Num.
 From TV Require Import Model.Common Model.Leaf Model.FlexAlgBase Model.BlockFlexEngine Model.TaffyEngine.
-From TV Require Model.Root Model.Engine Model.EngineRel Model.Block Model.BlockAlg Model.BlockEngine Model.BlockAbs.
+From TV Require Model.Root Model.Engine Model.EngineRel Model.EngineLift Model.Block Model.BlockAlg Model.BlockEngine Model.BlockAbs.
 Import ListNotations.
 
 Section TaffyRoot.
@@ -73,4 +73,13 @@ Section TaffyRoot.
   Definition real_memo teq := taffy_memo teq taffy_dispatch BlockEngine.block_pre BlockAbs.abs_child_block taffy_leaf.
   Definition real_compute_root teq := taffy_compute_root teq taffy_dispatch BlockEngine.block_pre BlockAbs.abs_child_block taffy_leaf.
   Definition real_layout_passes teq := taffy_layout_passes teq taffy_dispatch BlockEngine.block_pre BlockAbs.abs_child_block taffy_leaf.
+
+  (* ---- the same engine on trees ALL of whose nodes are calm (Model/TaffyEngine.v t_calm): the style type is the subtype, the algorithm
+     reads it through the projection -- so an engine tree over `CalmStyle` IS a tree of the complete engine without display:block nodes
+     and without baseline alignment, and every mutation of a history stays in the class *)
+  Definition CalmStyle : Type := { s : TStyle T | t_calm s = true }.
+  Definition calm_style (s : CalmStyle) : TStyle T := proj1_sig s.
+  Definition calm_is_none (s : CalmStyle) : bool := t_is_none (calm_style s).
+  Definition calm_algo : CalmStyle -> list CalmStyle -> FIn T -> Engine.Alg (FIn T) (LayoutOutput T) (FLay T) :=
+    EngineLift.style_comap (TStyle T) CalmStyle (FIn T) (LayoutOutput T) (FLay T) calm_style real_algo.
 End TaffyRoot.
